@@ -140,9 +140,10 @@ def run(ctx, proofs_ok):
         cases.append((len(geo) - 7, K, " ".join(sub(w))))
     # ... and, since the GEO commands have a model (Model/Handler4.lean), the same windows against the model: GEOADD's
     # reply, the watch flag it sets, EXEC's null
-    if vlib.correspond_stream(ctx, vlib.build_harness(ctx), geo, "geowatch", "GEOADD inside a WATCH .. EXEC window of another connection (reply, watch signal, EXEC's null) against the model"):
+    hg = vlib.build_harness(ctx)
+    if vlib.correspond_stream(ctx, hg, geo, "geowatch", "GEOADD inside a WATCH .. EXEC window of another connection (reply, watch signal, EXEC's null) against the model"):
         return
-    g, _ = vlib.run_pair(ctx, geo, vlib.build_harness(ctx), "geo")
+    g, _ = vlib.run_pair(ctx, geo, hg, "geo")
     ctx.cov["evaluations"] += len(geo)
     for (i, K, text) in cases:
         if i + 6 < len(g):
